@@ -4,6 +4,7 @@ import (
 	"bytes"
 	"fmt"
 	"io"
+	"strings"
 	"testing"
 
 	"filippo.io/age"
@@ -31,6 +32,10 @@ type c01Case struct {
 	// EncSSH: ssh-ed25519 recipients 0..2 are opened with their
 	// passphrase-protected key file (a fresh EncryptedSSHIdentity per decryption)
 	EncSSH bool `json:"encSSH"`
+	// LongStanza > 0: a recipient of an unknown type whose stanza line carries
+	// an argument of that many characters is inserted at position LongPos
+	LongStanza int `json:"longStanza,omitempty"`
+	LongPos    int `json:"longPos,omitempty"`
 }
 
 func c01Check(c c01Case, st *stats.Run) error {
@@ -39,6 +44,12 @@ func c01Check(c c01Case, st *stats.Run) error {
 	var recs []age.Recipient
 	for _, r := range c.Recs {
 		recs = append(recs, p.Recipient(r))
+	}
+	if c.LongStanza > 0 {
+		long := p.Recipient(hx.RecSpec{Kind: "stub", Stub: &hx.StubSpec{Stanzas: []refage.Stanza{{Type: "example.com/long", Args: []string{"a", strings.Repeat("x", c.LongStanza)}, Body: hx.PRG(5, 20)}}}})
+		pos := c.LongPos % (len(recs) + 1)
+		recs = append(recs[:pos:pos], append([]age.Recipient{long}, recs[pos:]...)...)
+		st.Label("long-stanza-line")
 	}
 	file, err := encryptLib(recs, plain, c.Segs, c.Armor)
 	if err != nil {
@@ -264,6 +275,20 @@ func TestC01(t *testing.T) {
 			}
 		}
 		s.St.Exhaust("armored files: every plaintext length 0..200 x 1..2 recipients", int64(n))
+	}, check)
+	pbt.Each(s, "roundtrip-grid", func(yield func(c01Case)) {
+		n := 0
+		for _, ll := range []int{1000, 4000, 4080, 4090, 4096, 4100, 4200, 9000, 70000} {
+			for pos := 0; pos < 3; pos++ {
+				for _, armored := range []bool{false, true} {
+					if s.Mine(n) {
+						yield(c01Case{PlainLen: 100, PlainSeed: 5, Recs: []hx.RecSpec{{Kind: "x25519", Idx: 0}, {Kind: "ed25519", Idx: 1}}, Armor: armored, Plan: []int{4096}, Delivery: hx.Delivery{Mode: "whole"}, LongStanza: ll, LongPos: pos})
+					}
+					n++
+				}
+			}
+		}
+		s.St.Exhaust("an unknown stanza whose first line is 1000..70000 characters long (around the 4096-byte mark) at every position among two native recipients, armor on and off", int64(n))
 	}, check)
 	pbt.Rapid(s, "roundtrip", s.N(1500, 8000), c01Gen, check)
 	pbt.Rapid(s, "interleaved", s.N(300, 2000), func(t *rapid.T) c01Inter {
